@@ -595,6 +595,13 @@ def method(E, st, recv: V, name, args, kw, n):
             st.set_set(recv, z3.Store(dom, coerce(args[0], et).t, False))
             yield st, vnone()
             return
+        if name == "union" and len(args) == 1:
+            other = args[0]
+            odom = st.dict_get(other)[0] if is_dictlike(other.ty) else ops.set_parts(st, other)
+            r = st.new_ref(SET(et))
+            st.set_set(r, z3.Map(z3.Or(z3.Bool("a"), z3.Bool("b")).decl(), dom, odom))
+            yield st, r
+            return
         if name == "intersection":
             other = args[0]
             x = z3.Const("k!int%d" % fresh(INT).t.hash(), sort_of(et))
